@@ -12,6 +12,11 @@ CLAIMS = {
         technique='differential symbolic execution (CrossHair/z3): compiled render function vs reference interpreter, symbolic bindings, enumerated programs',
         text='Per enumerated template the solver decides equality of output and call log with the reference semantics for all bindings in the bound.',
         note=G_NOTE),
+    'C04': dict(
+        engine='G', level='translation_validation', design_ref='DESIGN.md 4 C04',
+        technique='differential symbolic execution (CrossHair/z3): compiled render function vs reference TALES interpreter; leaf outcomes (value / exception class) symbolic',
+        text='Per enumerated expression shape x site the solver decides, for every combination of leaf outcomes, equality of output, raised exception class and ordered call log with the reference TALES semantics.',
+        note=G_NOTE),
     'C03': dict(
         engine='X+Z', level='model_checking', design_ref='DESIGN.md 4 C03',
         technique='symbolic execution (CrossHair/z3) of iter_xml/match_tag/emitters on shape-enumerated character-symbolic strings; z3 regex inclusion from the live lexer pattern',
